@@ -228,6 +228,16 @@ class Reach:
 # ---------------------------------------------------------------------------
 # MIR helpers
 
+def const_int(text):
+    """integer value of a MIR constant's text ('false', 'true', '3_usize', '-1_i32'), else None"""
+    if text == 'false':
+        return 0
+    if text == 'true':
+        return 1
+    m = re.match(r'^(-?\d+)(_[iu](8|16|32|64|128|size))?$', text or '')
+    return int(m.group(1)) if m else None
+
+
 def op_place(op):
     """place of a copy/move operand, else None"""
     if op and op[0] in ('c', 'm'):
@@ -352,10 +362,37 @@ class Fn:
     def is_cleanup(self, bb):
         return self.bbs[bb].get('c', False)
 
+    def const_locals(self):
+        """locals assigned exactly once in the whole body, by `const <int/bool>` (no liveness needed)"""
+        if getattr(self, '_const_locals', None) is None:
+            n = defaultdict(int)
+            val = {}
+            for b in self.bbs:
+                for s in b['s']:
+                    if s[0] == '=':
+                        l = s[1][0]
+                        n[l] += 1
+                        if len(s[1]) == 1 and s[2][0] == 'use' and s[2][1][0] == 'k':
+                            val[l] = const_int(s[2][1][1])
+                    elif s[0] == 'sd':
+                        n[s[1][0]] += 1
+                t = b['t']
+                if t[0] == 'call':
+                    n[t[3][0]] += 1
+            self._const_locals = {l: v for l, v in val.items() if n[l] == 1 and v is not None and l > self.argc}
+        return self._const_locals
+
+    def live(self):
+        """blocks reachable from bb0 on normal edges with constant switches folded"""
+        if getattr(self, '_live', None) is None:
+            self._live = self.reachable() if self.bbs else set()
+        return self._live
+
     def calls(self):
+        live = self.live()
         for i, b in enumerate(self.bbs):
             t = b['t']
-            if t[0] == 'call' and not b.get('c', False):
+            if t[0] == 'call' and not b.get('c', False) and i in live:
                 yield Call(self, i, t)
 
     def calls_to(self, pred):
@@ -368,9 +405,10 @@ class Fn:
 
     def asserts(self):
         """(bb, kind, ops, line, exp, cond, expected)"""
+        live = self.live()
         for i, b in enumerate(self.bbs):
             t = b['t']
-            if t[0] == 'assert' and not b.get('c', False):
+            if t[0] == 'assert' and not b.get('c', False) and i in live:
                 yield (i, t[3], t[4], t[7], t[8], t[1], t[2])
 
     def loc(self, line=None):
@@ -385,6 +423,17 @@ class Fn:
             out = [t[1]]
         elif k == 'sw':
             out = [x[1] for x in t[2]] + [t[3]]
+            cv = None
+            if t[1][0] == 'k':
+                # constant discriminant (e.g. `if cfg!(debug_assertions)` at mir-opt-level 0):
+                # only the matching edge is feasible
+                cv = const_int(t[1][1])
+            elif len(t[1][1]) == 1:
+                cv = self.const_locals().get(t[1][1][0])
+            if True:
+                if cv is not None:
+                    hit = [x[1] for x in t[2] if int(x[0]) == cv]
+                    out = hit[:1] if hit else [t[3]]
         elif k == 'drop':
             out = [t[2]]
             if unwind and t[3] is not None:
@@ -555,8 +604,9 @@ class Fn:
         if self._defs is not None:
             return self._defs
         d = defaultdict(list)
+        live = self.live()
         for i, b in enumerate(self.bbs):
-            if b.get('c', False):
+            if b.get('c', False) or i not in live:
                 continue
             for j, s in enumerate(b['s']):
                 if s[0] == '=':
